@@ -348,6 +348,56 @@ def r15h(ctx, rep, rule="R15h"):
     rep.floor(rule, "ASCII-only case operations in the character and string procedures", n, 1)
 
 
+FOLDS = ("to_lowercase", "to_uppercase", "fold_case", "to_ascii_lowercase", "to_ascii_uppercase", "foldcase")
+
+
+def r15i(ctx, rep, rule="R15i"):
+    facts = ctx["facts"]
+    rep.rule(rule, "a case-insensitive predicate looks only at folded text: inside the comparison closures of the -ci procedures "
+             "(char-ci=? ... string-ci>=?) every comparison — a primitive ==, <, ... or a PartialEq / PartialOrd call — takes "
+             "operands that come out of a case-folding call. A test on the raw operands (for instance their byte lengths, "
+             "which case mapping does not preserve) answers before folding and disagrees with the folded comparison.")
+    n = 0
+    for p, f in sorted(facts.fns.items()):
+        if not p.startswith((STRMOD, "marwood::vm::builtin::char::")) or "_ci_" not in p or "::{closure" not in p:
+            continue
+
+        def folded(op):
+            o = f.origin(op)
+            for _ in range(6):
+                if o[0] == "call":
+                    c = callee(o[1]) or ""
+                    if c.rsplit("::", 1)[-1] in FOLDS or c.endswith(FOLDS):
+                        return True
+                    if o[1]["args"] and c.endswith(("::deref", "::as_str", "::borrow", "::as_ref", "::clone", "::next", "::unwrap")):
+                        o = f.origin(o[1]["args"][0])
+                        continue
+                return False
+            return False
+        bad = []
+        k = 0
+        for bb, j, st in f.stmts():
+            rv = st["rv"]
+            if rv["k"] == "bin" and rv["op"] in ("Eq", "Ne", "Lt", "Le", "Gt", "Ge"):
+                k += 1
+                if not (folded(rv["a"]) and folded(rv["b"])):
+                    bad.append(st["loc"])
+        for bb, t in f.calls():
+            fa = t.get("fnargs") or callee(t) or ""
+            if ("PartialEq" in fa or "PartialOrd" in fa) and len(t["args"]) == 2:
+                k += 1
+                if not (folded(t["args"][0]) and folded(t["args"][1])):
+                    bad.append(t["loc"])
+        if not k:
+            continue
+        n += 1
+        key = "%s|%s" % (rule, f.short.replace("vm::builtin::", ""))
+        (rep.ok if not bad else rep.fail)(rule, key, "%s compares folded operands only" % f.short if not bad else
+                                          "%s compares operands that did not pass through a case-folding call: the answer can be given "
+                                          "before folding (e.g. on byte lengths, which case mapping changes)" % f.short, bad[:2] or [f.span])
+    rep.floor(rule, "comparison closures of the -ci procedures", n, 8)
+
+
 def r15g(ctx, rep, rule="R15g"):
     fresh_results(ctx, rep, rule, "String", "marwood::vm::vcell::VCell::string", "string", "string-set!", 1, 8)
 
@@ -407,6 +457,7 @@ def run(ctx, rep):
     r15d(ctx, rep)
     r15g(ctx, rep)
     r15h(ctx, rep)
+    r15i(ctx, rep)
     from . import numeric
     numeric.r_fold_adjacent(ctx, rep, "R15f", [STRMOD, "marwood::vm::builtin::char::"], 2)
     from . import C14
